@@ -101,3 +101,29 @@ Example C04_depth_hypotheses_inhabited :
     Some (VSeq [("v1"%string, VInt 5); ("next2"%string, VSeq [("v1"%string, VInt 7)])]).
 Proof. repeat split; vm_compute; try reflexivity. lia. Qed.
 Print Assumptions C04_depth_hypotheses_inhabited.
+
+(** ------------------------------------------------------------------
+    Tie to the SOURCE TEXT (coq/gen/PyBer.v regenerated from ber.py on every run):
+    the regenerated end-of-data / end-of-contents tests, tag reader and
+    subidentifier reader ARE the model functions, for all data and offsets. *)
+From Asn1V Require Py.PyBerTie.
+
+Theorem C04_src_is_end_of_data : ltac:(let T := type of Asn1V.Py.PyBerTie.py_is_end_of_data_eq in exact T).
+Proof. exact Asn1V.Py.PyBerTie.py_is_end_of_data_eq. Qed.
+Print Assumptions C04_src_is_end_of_data.
+
+Theorem C04_src_detect_end_of_contents_tag : ltac:(let T := type of Asn1V.Py.PyBerTie.py_detect_end_of_contents_tag_eq in exact T).
+Proof. exact Asn1V.Py.PyBerTie.py_detect_end_of_contents_tag_eq. Qed.
+Print Assumptions C04_src_detect_end_of_contents_tag.
+
+Theorem C04_src_read_tag : ltac:(let T := type of Asn1V.Py.PyBerTie.py_read_tag_eq in exact T).
+Proof. exact Asn1V.Py.PyBerTie.py_read_tag_eq. Qed.
+Print Assumptions C04_src_read_tag.
+
+Theorem C04_src_decode_length : ltac:(let T := type of Asn1V.Py.PyBerTie.py_decode_length_eq in exact T).
+Proof. exact Asn1V.Py.PyBerTie.py_decode_length_eq. Qed.
+Print Assumptions C04_src_decode_length.
+
+Theorem C04_src_decode_subidentifier : ltac:(let T := type of Asn1V.Py.PyBerTie.py_decode_object_identifier_subidentifier_eq in exact T).
+Proof. exact Asn1V.Py.PyBerTie.py_decode_object_identifier_subidentifier_eq. Qed.
+Print Assumptions C04_src_decode_subidentifier.
